@@ -22,6 +22,7 @@ static inline void stub_upool_clean(struct upool *upool) { }
 #define upool_free stub_upool_free
 #define upool_vacuum stub_upool_vacuum
 #define upool_clean stub_upool_clean
+#include "lib/upipe/ubuf_mem_common.c"
 #ifdef SOUND
 #include "lib/upipe/ubuf_sound_mem.c"
 #include "lib/upipe/ubuf_sound_common.c"
@@ -119,6 +120,60 @@ void h_write_after_share(void)
     bool last = ubuf_mem_shared_release(sh);
     int r3 = WRITE(ubuf, &p);
     VPOST(!last && r3 == UBASE_ERR_NONE);
+    VCANARY();
+}
+
+/* ---- dup: "duplicating a buffer shares its memory" ---------------------------------------------------------------------
+ * dup gives a second handle on the same area (owner count 2, same plane pointers and window); while both exist neither may
+ * be mapped for writing and both read the same octets; freeing one makes the other writable again and does NOT return the
+ * area; freeing the last one returns the area and the shared structure exactly once.  A failed dup changes nothing. */
+#ifdef SOUND
+static struct { struct ubuf_sound_mem m; struct ubuf_sound_common_plane slot[1]; } g_obj2;
+#define OBJ2_UBUF (&g_obj2.m.ubuf_sound_common.ubuf)
+#define MEMFREE ubuf_sound_mem_free
+#define SAME_WINDOW() (g_obj2.m.ubuf_sound_common.size == g_obj.m.ubuf_sound_common.size && g_obj2.m.ubuf_sound_common.planes[0].buffer == g_obj.m.ubuf_sound_common.planes[0].buffer)
+#else
+static struct { struct ubuf_pic_mem m; struct ubuf_pic_common_plane slot[1]; } g_obj2;
+#define OBJ2_UBUF (&g_obj2.m.ubuf_pic_common.ubuf)
+#define MEMFREE ubuf_pic_mem_free
+#define SAME_WINDOW() (g_obj2.m.ubuf_pic_common.hmsize == g_obj.m.ubuf_pic_common.hmsize && g_obj2.m.ubuf_pic_common.vsize == g_obj.m.ubuf_pic_common.vsize && \
+    g_obj2.m.ubuf_pic_common.hmprepend == g_obj.m.ubuf_pic_common.hmprepend && g_obj2.m.ubuf_pic_common.vprepend == g_obj.m.ubuf_pic_common.vprepend && \
+    g_obj2.m.ubuf_pic_common.planes[0].buffer == g_obj.m.ubuf_pic_common.planes[0].buffer && g_obj2.m.ubuf_pic_common.planes[0].stride == g_obj.m.ubuf_pic_common.planes[0].stride)
+#endif
+static int g_obj_live, g_obj_freed, g_shared_freed, g_umem_freed; static bool g_alloc_fails;
+static struct umem_mgr g_umem_mgr;
+static void *stub_obj_alloc(struct upool *p) { if (g_alloc_fails || g_obj_live > 0) return NULL; g_obj_live++; OBJ2_UBUF->mgr = &g_mm.common_mgr.mgr; g_obj2.m.readers = 0; g_obj2.m.shared = (struct ubuf_mem_shared *)8; return &g_obj2.m; }
+static void stub_obj_free(struct upool *p, void *o) { g_obj_freed++; }
+static void stub_shared_free(struct upool *p, void *o) { if (o == &g_shared) g_shared_freed++; }
+static void stub_umem_free(struct umem *u) { if (u == &g_shared.umem) g_umem_freed++; }
+void h_dup(void)
+{
+    VIN(uint16_t, w); VIN(uint16_t, h); VIN(uint8_t, af); VASSUME(w >= 1 && h >= 1);
+    struct ubuf *ubuf = build(1, w, h);
+    g_mm.common_mgr.mgr.ubuf_free = MEMFREE;
+    g_mm.ubuf_pool.alloc_cb = stub_obj_alloc; g_mm.ubuf_pool.free_cb = stub_obj_free; g_mm.ubuf_pool.refcount = NULL;
+    g_mm.shared_pool.alloc_cb = NULL; g_mm.shared_pool.free_cb = stub_shared_free; g_mm.shared_pool.refcount = NULL;
+    g_shared.pool = &g_mm.shared_pool; g_umem_mgr.umem_free = stub_umem_free; g_shared.umem.mgr = &g_umem_mgr;
+    g_obj_live = g_obj_freed = g_shared_freed = g_umem_freed = 0; g_alloc_fails = (af & 1) != 0;
+    struct ubuf *nu = NULL;
+    int r = call_ctl(ubuf, UBUF_DUP, &nu);
+    if (r != UBASE_ERR_NONE) {
+        VPOST(g_shared.refcount == 1 && g_obj_live == g_obj_freed && g_umem_freed == 0);
+    } else {
+        VPOST(nu == OBJ2_UBUF && g_shared.refcount == 2 && g_obj2.m.shared == &g_shared && SAME_WINDOW());
+        uint8_t *p = NULL; const uint8_t *q1 = NULL, *q2 = NULL;
+        VPOST(WRITE(ubuf, &p) == UBASE_ERR_BUSY && WRITE(nu, &p) == UBASE_ERR_BUSY);           /* neither handle may write into the shared area */
+        VPOST(READ(ubuf, &q1) == UBASE_ERR_NONE && READ(nu, &q2) == UBASE_ERR_NONE && q1 == q2 && q1 == g_area);
+        UNMAP(ubuf); UNMAP(nu);
+        VIN(uint8_t, first);
+        struct ubuf *a = (first & 1) ? ubuf : nu, *b = (first & 1) ? nu : ubuf;
+        MEMFREE(a);
+        VPOST(g_shared.refcount == 1 && g_umem_freed == 0 && g_shared_freed == 0 && g_obj_freed == 1);    /* the area stays with the other handle */
+        VPOST(WRITE(b, &p) == UBASE_ERR_NONE && p == g_area);                                            /* ... which is its single owner again */
+        UNMAP(b);
+        MEMFREE(b);
+        VPOST(g_umem_freed == 1 && g_shared_freed == 1 && g_obj_freed == 2);                              /* last holder returns the area, once */
+    }
     VCANARY();
 }
 #ifdef VENTRY
